@@ -137,8 +137,8 @@ func (e *Exec) crashEnumerate(tier string) {
 	}
 	r := simrt.NewRand(simrt.Mix(e.c.SchedSeed, 0xc4a5))
 	cur := newDisk()
-	synced := newDisk()                       // per-file durable content (M model)
-	pend := map[string][]pendingWrite{}       // per-file writes since last sync
+	synced := newDisk()                 // per-file durable content (M model)
+	pend := map[string][]pendingWrite{} // per-file writes since last sync
 	seen := map[string]bool{}
 	lastMarkJ := -1
 	lastMarkSynced := false
